@@ -28,10 +28,12 @@ theorem consistent_preserved (g : Grid) (op : Op) (hI : Inv g) (hv : ValidOp g.e
     simp only [step, setExtent]
     split
     next hnone =>
-      refine inv_partial _ hI.ep (Or.inl rfl) ?_ ?_ ?_ hI.ls
-      · intro rs h; cases h
-      · intro ns h; exact ⟨hI.gpLen ns h, hI.gpGood ns h⟩
-      · intro ds h; exact ⟨hI.saLen ds h, hI.saPos ds h⟩
+      split
+      · exact hI
+      · refine inv_partial _ hI.ep (Or.inl rfl) ?_ ?_ ?_ hI.ls
+        · intro rs h; cases h
+        · intro ns h; exact ⟨hI.gpLen ns h, hI.gpGood ns h⟩
+        · intro ds h; exact ⟨hI.saLen ds h, hI.saPos ds h⟩
     next hnone =>
       split
       · exact hI
@@ -118,7 +120,7 @@ theorem step_frame (g : Grid) (op : Op) :
   | setExtent v =>
     simp only [step, setExtent]
     split
-    · simp
+    · split <;> simp
     · split
       · simp
       · simp
@@ -287,7 +289,10 @@ theorem error_leaves_unchanged (g : Grid) (op : Op) (e : String) (hW : WF g) (h 
   | setExtent v =>
     simp only [step, setExtent] at h ⊢
     by_cases hnone : v = Val.none
-    · simp [hnone] at h
+    · simp only [hnone, if_true] at h ⊢
+      split
+      · rfl
+      · rename_i hl; simp [hl] at h
     · simp only [hnone, if_false] at h ⊢
       rcases hq : extentLockFails g v with e' | b
       · simp [hq]
@@ -469,7 +474,7 @@ theorem lock_gpts_protects (g : Grid) (op : Op) (hl : g.lockGpts = true) (hs : g
   | setExtent v =>
     simp only [step, setExtent]
     split
-    · rfl
+    · split <;> rfl
     · split
       · rfl
       · rfl
@@ -495,21 +500,21 @@ theorem lock_gpts_protects (g : Grid) (op : Op) (hl : g.lockGpts = true) (hs : g
       exact adjustExtent_gpts _ _ _
 
 /-- **`lock_extent`** (the lock abTEM uses for potentials): with a defined extent and no other lock, an assignment
-leaves the extent untouched unless it is an assignment *to the extent* of `None` or of a value that
-`numpy.allclose` accepts as equal to the current one. -/
+leaves the extent untouched unless it is an assignment *to the extent* of a value that `numpy.allclose` accepts as
+equal to the current one (assigning `None` raises since fix 718fdf49). -/
 theorem lock_extent_protects (g : Grid) (op : Op) (rs : List Rat) (hl : g.lockExtent = true) (hs : g.lockSampling = false)
     (hg : g.lockGpts = false) (he : g.extent = some rs) :
-    (step g op).1.extent = some rs ∨ ∃ v, op = .setExtent v ∧ (v = Val.none ∨ allclose v rs = .ok true) := by
+    (step g op).1.extent = some rs ∨ ∃ v, op = .setExtent v ∧ v ≠ Val.none ∧ allclose v rs = .ok true := by
   cases op with
   | setExtent v =>
     by_cases hnone : v = Val.none
-    · exact Or.inr ⟨v, rfl, Or.inl hnone⟩
+    · left; simp [step, setExtent, hnone, hl, he]
     · simp only [step, setExtent, hnone, if_false]
       rcases hq : extentLockFails g v with e' | b
       · left; simpa using he
       · cases b
         · right
-          refine ⟨v, rfl, Or.inr ?_⟩
+          refine ⟨v, rfl, hnone, ?_⟩
           simp only [extentLockFails, hl, if_true, he] at hq
           rcases hc : allclose v rs with e' | c
           · simp [hc, Except.map] at hq
@@ -550,6 +555,93 @@ theorem check_match_spec (g o : Grid)
   all_goals
     rcases hc : all2 isclose a b <;> simp_all
 
+/-! ### `Grid.match` -/
+
+lemma pyInt_intCast' (n : Int) : pyInt (n : Rat) = n := by
+  unfold pyInt; split <;> simp [Rat.floor_intCast, Rat.ceil_intCast]
+
+lemma validOp_extent_of_inv {o : Grid} (ep : List Bool) (hI : Inv o) : ValidOp ep (.setExtent (valOfRats o.extent)) := by
+  rcases h : o.extent with _ | l
+  · trivial
+  · exact hI.extPos l h
+
+lemma validOp_sampling_of_inv {o : Grid} (ep : List Bool) (hI : Inv o) : ValidOp ep (.setSampling (valOfRats o.sampling)) := by
+  rcases h : o.sampling with _ | l
+  · trivial
+  · exact hI.saPos l h
+
+lemma validOp_gpts_of_inv {o : Grid} (hI : Inv o) : ValidOp o.endpoint (.setGpts (valOfInts o.gpts)) := by
+  rcases h : o.gpts with _ | l
+  · trivial
+  · intro i x e hx he
+    simp only [List.getElem?_map, Option.map_eq_some_iff] at hx
+    obtain ⟨n, hn, rfl⟩ := hx
+    rw [pyInt_intCast']
+    exact hI.gpGood l h i n e hn he
+
+/-- the invariant of a pair of grids that `match` works on: both consistent, same endpoint flags -/
+def Inv2 (p : Grid × Grid) : Prop := Inv p.1 ∧ Inv p.2 ∧ p.1.endpoint = p.2.endpoint
+
+lemma matchExtent_inv (s o : Grid) (c1 : Bool) (h : Inv2 (s, o)) : Inv2 (matchExtent s o c1).1 := by
+  obtain ⟨hs, ho, he⟩ := h
+  unfold matchExtent
+  split
+  · have := consistent_preserved o (.setExtent (valOfRats s.extent)) ho (validOp_extent_of_inv _ hs)
+    exact ⟨hs, this, he.trans (step_frame o (.setExtent (valOfRats s.extent))).2.1.symm⟩
+  · split
+    · have := consistent_preserved s (.setExtent (valOfRats o.extent)) hs (validOp_extent_of_inv _ ho)
+      exact ⟨this, ho, (step_frame s (.setExtent (valOfRats o.extent))).2.1.trans he⟩
+    · exact ⟨hs, ho, he⟩
+
+lemma matchGpts_inv (s o : Grid) (h : Inv2 (s, o)) : Inv2 (matchGpts s o).1 := by
+  obtain ⟨hs, ho, he⟩ := h
+  unfold matchGpts
+  split
+  · have := consistent_preserved o (.setGpts (valOfInts s.gpts)) ho (by rw [← he]; exact validOp_gpts_of_inv hs)
+    exact ⟨hs, this, he.trans (step_frame o (.setGpts (valOfInts s.gpts))).2.1.symm⟩
+  · split
+    · have := consistent_preserved s (.setGpts (valOfInts o.gpts)) hs (by rw [he]; exact validOp_gpts_of_inv ho)
+      exact ⟨this, ho, (step_frame s (.setGpts (valOfInts o.gpts))).2.1.trans he⟩
+    · exact ⟨hs, ho, he⟩
+
+lemma matchSampling_inv (s o : Grid) (c3 : Bool) (h : Inv2 (s, o)) : Inv2 (matchSampling s o c3).1 := by
+  obtain ⟨hs, ho, he⟩ := h
+  unfold matchSampling
+  split
+  · have := consistent_preserved o (.setSampling (valOfRats s.sampling)) ho (validOp_sampling_of_inv _ hs)
+    exact ⟨hs, this, he.trans (step_frame o (.setSampling (valOfRats s.sampling))).2.1.symm⟩
+  · split
+    · have := consistent_preserved s (.setSampling (valOfRats o.sampling)) hs (validOp_sampling_of_inv _ ho)
+      exact ⟨this, ho, (step_frame s (.setSampling (valOfRats o.sampling))).2.1.trans he⟩
+    · exact ⟨hs, ho, he⟩
+
+lemma bind2_inv (r : Res2) (f : Grid → Grid → Res2) (hr : Inv2 r.1) (hf : ∀ s o, Inv2 (s, o) → Inv2 (f s o).1) :
+    Inv2 (r.bind f).1 := by
+  rcases r with ⟨⟨s, o⟩, _ | e⟩
+  · exact hf s o hr
+  · exact hr
+
+/-- **`Grid.match` keeps both grids consistent**: whatever the two float32 comparisons decide, whether or not
+`check_match` is requested, whether the call completes or one of the assignments raises (locks), two consistent grids
+with the same endpoint flags are both still consistent afterwards. -/
+theorem match_preserves_consistency (s o : Grid) (check c1 c3 : Bool) (hs : Inv s) (ho : Inv o) (he : s.endpoint = o.endpoint) :
+    Inv (matchGrids s o check c1 c3).1.1 ∧ Inv (matchGrids s o check c1 c3).1.2 := by
+  have h0 : Inv2 (s, o) := ⟨hs, ho, he⟩
+  have : Inv2 (matchGrids s o check c1 c3).1 := by
+    unfold matchGrids
+    apply bind2_inv _ _ _ (fun s o h => matchSampling_inv s o c3 h)
+    apply bind2_inv _ _ _ (fun s o h => matchGpts_inv s o h)
+    apply bind2_inv _ _ _ (fun s o h => matchExtent_inv s o c1 h)
+    split
+    · split <;> exact h0
+    · exact h0
+  exact ⟨this.1, this.2.1⟩
+
+/-- with `check_match=True`, grids that `check_match` rejects are left untouched and the error is passed on -/
+theorem match_check_rejects (s o : Grid) (c1 c3 : Bool) (e : String) (h : checkMatch s o = .error e) :
+    matchGrids s o true c1 c3 = ((s, o), some e) := by
+  simp [matchGrids, h, Res2.bind]
+
 /-! ### what the locks do not protect (known findings, DESIGN §7 F8): negation witnesses -/
 
 /-- `lock_sampling` does not protect the sampling: `Grid(sampling=.3, lock_sampling=True).extent = 1` ends with
@@ -585,13 +677,11 @@ theorem lock_extent_and_gpts_protects_counterexample :
   have h1 := h ⟨1, [false], some [1], some [4], some [1/4], true, true, false⟩ (.setSampling (.scalar (1/2))) rfl rfl (by decide +kernel)
   revert h1; decide +kernel
 
-/-- assigning `None` to a locked extent succeeds and removes it (after which any extent can be assigned) -/
-theorem lock_extent_none_assignment_counterexample :
-    ¬ (∀ (g : Grid) (op : Op), g.lockExtent = true → g.extent.isSome = true → (step g op).2 = none →
-        (step g op).1.extent.isSome = true) := by
-  intro h
-  have h1 := h ⟨1, [false], some [1], some [4], some [1/4], true, false, false⟩ (.setExtent .none) rfl rfl (by decide +kernel)
-  revert h1; decide +kernel
+/-- assigning `None` to a locked, defined extent raises and changes nothing (repaired in /repo 718fdf49; before, the
+assignment succeeded and removed the extent, after which any extent could be assigned) -/
+theorem lock_extent_none_rejected (g : Grid) (hl : g.lockExtent = true) (he : g.extent.isSome = true) :
+    step g (.setExtent .none) = (g, some "runtime_error") := by
+  simp [step, setExtent, hl, he]
 
 /-- with `lock_sampling` but no sampling, assigning gpts to a grid with an extent leaves a "defined" grid
 (extent and gpts set) without any sampling -/
